@@ -65,23 +65,21 @@ def DATEDIF(
     datetime_start_date = utils.number_to_datetime(int(start_date))
     datetime_end_date = utils.number_to_datetime(int(end_date))
 
+    # Complete months: the end's day of month must have reached the start's.
+    months = (
+        (datetime_end_date.year - datetime_start_date.year) * 12
+        + datetime_end_date.month - datetime_start_date.month)
+    if datetime_end_date.day < datetime_start_date.day:
+        months -= 1
+
     if str(unit).upper() == 'Y':
-        date_list = list(rrule.rrule(rrule.YEARLY,
-                                     dtstart=datetime_start_date,
-                                     until=datetime_end_date))
-        return len(date_list) - 1  # end of day to end of day / "full days"
+        return months // 12
 
     elif str(unit).upper() == 'M':
-        date_list = list(rrule.rrule(rrule.MONTHLY,
-                                     dtstart=datetime_start_date,
-                                     until=datetime_end_date))
-        return len(date_list) - 1  # end of day to end of day / "full days"
+        return months
 
     elif str(unit).upper() == 'D':
-        date_list = list(rrule.rrule(rrule.DAILY,
-                                     dtstart=datetime_start_date,
-                                     until=datetime_end_date))
-        return len(date_list) - 1  # end of day to end of day / "full days"
+        return int(end_date) - int(start_date)
 
     elif str(unit).upper() == 'MD':
         modified_datetime_start_date = datetime_start_date.replace(year=1900,
